@@ -296,6 +296,9 @@ class C06(Check):
             if rc.prior and rng.random() < 0.8:
                 rc.recs = rc.recs + [(rc.recs[0][0], 997, [1] * rc.L)]
             runs["cd%d" % n] = rc
+        # the value reported by a Solver object that has run on another network before (a rewiring of the same size)
+        from .props_b import solver_reuse_stage
+        solver_reuse_stage(self, "likelihood-with-reused-solver")
         io2, mo2 = self.correspond("run", [rc.line(c) for c, rc in runs.items()], keys=["L2s", "iters", "reasons"], drift=True)
         for cid, rc in runs.items():
             o = io2.get(cid)
@@ -312,7 +315,7 @@ class C06(Check):
                 self.dist("cadence:n=%d" % n)
                 self.lik_check(unhex(o["L2s"][i]), net, st, rc.K, rc.assort,
                                dict(rc.describe(), realization=i, sweeps=n, evaluated_after_sweep=last_eval), "reported")
-                # L2 may change only in sweeps 1, 11, 21, …
+                # L2 may change only in sweeps 1, 11, 21, ...
                 for t in range(2, n + 1):
                     if (t - 1) % 10 != 0 and seq[t][2] != seq[t - 1][2]:
                         self.violate("evaluation-cadence", "likelihood re-evaluated outside sweeps 1,11,21,…",
